@@ -105,7 +105,14 @@ class Pipe:
 
     def _arm(self):
         if self.timer is None and self.q and not self._blocked():
-            self.timer = self.env.loop.call_later(self.env.lat(self.lat), self._pump)
+            # with fine segmentation most chunks follow each other immediately (one TCP
+            # stream), a delay is drawn only now and then - otherwise 64 KiB in 1-7 byte
+            # chunks would take simulated minutes
+            if self.seg in ("bytes", "mixed") and self.rng.random() > 0.03:
+                d = 0.0
+            else:
+                d = self.env.lat(self.lat)
+            self.timer = self.env.loop.call_later(d, self._pump)
 
     def _blocked(self):
         return self.stalled or (self.dst is not None and self.dst._read_paused)
